@@ -1,7 +1,7 @@
 (* Properties/C09.v — Hedge: bounded attempts, spaced by the delay, one winner, losers cancelled.
    [hedge_run] is the virtual-time mirror of hedgepolicy/hedgeexecutor.go (Model/Hedge.v). *)
 From FS Require Import Model.Hedge Proofs.HedgeProofs Corr.C09.
-From FS Require Import Model.Exec Proofs.ExecHedgeProofs Proofs.ExecHedgeWinner Proofs.ExecHedgeLosers Corr.C09x.
+From FS Require Import Model.Exec Proofs.ExecHedgeProofs Proofs.ExecHedgeWinner Proofs.ExecHedgeLosers Proofs.ExecWF Corr.C09x.
 
 (* For every maxHedges, delay function, cancel conditions, assignment of durations/outcomes/cooperativeness
    to the attempts and cancellation instant of the caller's context: at most maxHedges+1 attempts are
@@ -91,8 +91,7 @@ Print Assumptions C09_in_stack_result_produced_by_an_attempt.
    winning attempt has not: unless the run is schedule-dependent or cancelled from outside, exactly one of the execution
    copies the run created ([more]: copy and cancel scope of every attempt, in starting order) has a live context.
    The premises say the world is well formed: the caller's scope exists, the execution's copy and the scopes of its chain
-   exist, attempts of earlier runs carry earlier run numbers (true of every world the model reaches; not proved as an
-   invariant of the other layers -- the Example below checks them for a fresh execution) *)
+   exist, attempts of earlier runs carry earlier run numbers; the next theorem derives them from the invariant [Wf] *)
 Theorem C09_in_stack_losers_cancelled_winner_not : forall pos total cfg c w,
   (1 <= length (w_scopes w))%nat -> (c < length (w_copies w))%nat ->
   (forall s, In s (cp_chain (get_copy w c)) -> (s < length (w_scopes w))%nat) ->
@@ -105,6 +104,29 @@ Theorem C09_in_stack_losers_cancelled_winner_not : forall pos total cfg c w,
        /\ forall j c' s', nth_error more j = Some (c', s') -> j <> idx -> copy_err w' c' <> None.
 Proof. exact hedge_layer_one_left. Qed.
 Print Assumptions C09_in_stack_losers_cancelled_winner_not.
+
+(* the same from well-formedness alone: [Wf] (Proofs/ExecWF.v) is established by [fresh_world] and preserved by every layer
+   of every stack -- each layer hands a well-formed world and an existing execution copy to the layer inside it, the hedge
+   layer being the innermost *)
+Theorem C09_in_stack_losers_cancelled_winner_not_wf : forall pos total cfg c w, okc c w -> Wf w ->
+  let w' := snd (hedge_layer pos total cfg c w) in
+  w_oof w' = true
+  \/ is_canceled w' c <> None
+  \/ exists (more : list (nat * nat)) idx cw sw, nth_error more idx = Some (cw, sw)
+       /\ copy_err w' cw = None
+       /\ forall j c' s', nth_error more j = Some (c', s') -> j <> idx -> copy_err w' c' <> None.
+Proof. exact hedge_layer_one_left_wf. Qed.
+Print Assumptions C09_in_stack_losers_cancelled_winner_not_wf.
+
+Theorem C09_fresh_world_well_formed : forall now ext key b l k c script,
+  Wf (fresh_world now ext key b l k c script) /\ okc 0 (fresh_world now ext key b l k c script).
+Proof. exact fresh_world_Wf. Qed.
+Print Assumptions C09_fresh_world_well_formed.
+
+Theorem C09_every_layer_preserves_well_formedness : forall fuel stack pos total c w, okc c w -> Wf w ->
+  Wf (snd (compose fuel pos stack total c w)) /\ (length (w_copies w) <= length (w_copies (snd (compose fuel pos stack total c w))))%nat.
+Proof. intros fuel stack pos total c w Hc H. exact (compose_pres fuel stack pos total c w Hc H). Qed.
+Print Assumptions C09_every_layer_preserves_well_formedness.
 
 Example C09_in_stack_premises_hold_for_a_fresh_execution :
   let w := fresh_world 0 None CKNone [] [] [] [] [] in
